@@ -5,6 +5,7 @@ package schema
 import (
 	"strconv"
 	"strings"
+	"unicode/utf8"
 )
 
 // C12: the OPL parser is total.
@@ -222,4 +223,43 @@ func HarnessC12Pump() {
 	if len(errs) > 0 {
 		verifC12CheckErrors(s, errs)
 	}
+}
+
+// ---------------------------------------------------------------------------
+// a string literal that is not valid UTF-8 at every token position of a full
+// document: the diagnosis must be transportable (the gRPC response is a
+// protobuf string, which has to be valid UTF-8).
+
+var verifC12Template = []string{
+	"class", "User", "implements", "Namespace", "{", "}",
+	"class", "Doc", "implements", "Namespace", "{",
+	"related", ":", "{", "parents", ":", "Doc", "[", "]", ",", "viewers", ":", "(", "User", "|", "SubjectSet", "<", "Doc", ",", "\"viewers\"", ">", ")", "[", "]", "}",
+	"permits", "=", "{",
+	"view", ":", "(", "ctx", ":", "Context", ")", ":", "boolean", "=>",
+	"this", ".", "related", ".", "viewers", ".", "includes", "(", "ctx", ".", "subject", ")", "||",
+	"this", ".", "related", ".", "parents", ".", "traverse", "(", "(", "p", ")", "=>", "p", ".", "permits", ".", "view", "(", "ctx", ")", ")", "&&",
+	"!", "this", ".", "permits", ".", "view", "(", "ctx", ")", ",",
+	"}", "}",
+}
+
+func HarnessC12BadLiteralEverywhere() {
+	pos := verifChoice(len(verifC12Template))
+	bad := []string{"\"caf\xe9\"", "'\xff'", "\"\xc3\"", "caf\xe9"}[verifChoice(4)]
+	s := ""
+	for i, t := range verifC12Template {
+		if i == pos {
+			t = bad
+		}
+		s += t + " "
+	}
+	verifNote("token " + strconv.Itoa(pos) + " (" + verifC12Template[pos] + ") replaced")
+	_, errs := Parse(s)
+	verifReach("c12.bad-literal")
+	// (the document may still be valid: a quoted name is allowed wherever a name is)
+	for _, e := range errs {
+		m := e.ToProto().Message
+		verifAssert(utf8.ValidString(m), "C12: a parse error message is not valid UTF-8 (it cannot be returned by the gRPC endpoint)")
+		verifAssert(utf8.ValidString(e.ToAPI().Message), "C12: a parse error message is not valid UTF-8")
+	}
+	verifC12CheckErrors(s, errs)
 }
